@@ -41,7 +41,40 @@ def rule_I1(ctx) -> None:
             ident_branch = True
         if p.valuation.get(kw_atom) is False and p.valuation.get(id_atom) is True and v == N(p0):
             passthrough = True
-    if kw_branch and ident_branch and passthrough:
+    # the guard evaluated at distinguished names (every kind of keyword spelling, non-identifiers, ordinary names): the path each
+    # name takes is selected with the analyser's evaluator; decisive when every name evaluates
+    import keyword as _kw
+    from .. import concrete
+    probes = ["None", "True", "False", "class", "import", "lambda", "in", "Class", "IMPORT", "none", "foo", "foo_", "_foo", "Foo", "x1", "1x", "", "a-b", "a b", "9"]
+    bad_probe = unknown_probe = None
+    for name_ in probes:
+        env = {p0: name_}
+        sel = []
+        try:
+            for p in paths:
+                if all(bool(concrete.ev(k, env)) == bool(v) for k, v in p.valuation.items() if k[0] != "raises"):
+                    sel.append(p)
+            if len(sel) != 1 or sel[0].outcome != "return" or sel[0].value is None:
+                unknown_probe = unknown_probe or f"{name_!r}: {len(sel)} paths selected"
+                continue
+            got = concrete.ev(sel[0].value, env)
+        except concrete.Unknown as e:
+            unknown_probe = unknown_probe or f"{name_!r}: {e}"
+            continue
+        want = f"{name_}_" if _kw.iskeyword(name_) else name_ if name_.isidentifier() else f"_{name_}"
+        ok_ = got == want if (_kw.iskeyword(name_) or name_.isidentifier()) else (isinstance(got, str) and got != name_ and (got.isidentifier() or not name_.replace("_", "").isalnum()) and not _kw.iskeyword(got))
+        if not ok_:
+            bad_probe = bad_probe or (name_, got, want)
+    if unknown_probe is None:
+        if bad_probe:
+            name_, got, want = bad_probe
+            ctx.refuted("I1", "sanitize_name:both-guards", f"{name_!r}->{got!r}", cas.loc(sn),
+                        f"sanitize_name({name_!r}) is {got!r}" + (f": {name_!r} is a Python keyword and must become {want!r} - a class, field or enum member generated under that name does not compile" if _kw.iskeyword(name_)
+                                                                 else f"; expected {want!r}: a valid, non-reserved name is left alone and anything else is made an identifier"),
+                        f"message {name_} {{}} / enum member {name_}")
+        else:
+            ctx.proved("I1", "sanitize_name:both-guards", cas.loc(sn), f"{len(probes)} distinguished names (keywords in every capitalisation, non-identifiers, plain names)")
+    elif kw_branch and ident_branch and passthrough:
         ctx.proved("I1", "sanitize_name:both-guards", cas.loc(sn))
     else:
         missing = [n for n, ok in (("keyword -> suffix '_'", kw_branch), ("not str.isidentifier() -> prefix '_'", ident_branch), ("valid name unchanged", passthrough)) if not ok]
